@@ -406,6 +406,21 @@ InstallOlderSig(n) ==
   /\ snaps'[node'[n].snap].last.idx < node[n].applied
   /\ node'[n].applied = snaps'[node'[n].snap].last.idx
   /\ node'[n].log = <<snaps'[node'[n].snap].prev, snaps'[node'[n].snap].last>>
+(* KF7, general form: the installed snapshot is not ahead of the follower's own log (older than its applied position, or  *)
+(* only older than its last entry): the follower's log is replaced by the snapshot's two entries                           *)
+InstallBehindSig(n) ==
+  /\ BothLive(n) /\ node'[n].snap \in DOMAIN snaps'
+  /\ node[n].log # <<>> /\ snaps'[node'[n].snap].last.idx < Last(node[n].log).idx
+  /\ node'[n].log = <<snaps'[node'[n].snap].prev, snaps'[node'[n].snap].last>>
+(* C04 (premise of every match index): a running node removes entries from its log only from a position at which its new *)
+(* log holds a different entry (a conflict with the leader's log) - or because a snapshot covers them                       *)
+TermAtIdx(lg, j) == IF lg = <<>> \/ j < lg[1].idx \/ j > Last(lg).idx THEN -1 ELSE lg[j - lg[1].idx + 1].term
+Dropped(n) == {k \in 1..Len(node[n].log) : ~HoldsLog(node'[n].log, node[n].log[k])
+                   /\ ~\E j \in node[n].log[1].idx..node[n].log[k].idx :
+                           TermAtIdx(node[n].log, j) # -1 /\ TermAtIdx(node'[n].log, j) # -1
+                           /\ TermAtIdx(node[n].log, j) # TermAtIdx(node'[n].log, j)}
+DropBad == {n \in Nodes : BothLive(n) /\ node[n].log # <<>> /\ node'[n].log # <<>> /\ Dropped(n) # {}}
+EntriesKeptUnlessConflict == DropBad = {}
 MonoBad == {n \in Nodes : BothLive(n) /\ ~(node'[n].commit >= node[n].commit /\ node'[n].applied >= node[n].applied)}
 HistBad == {n \in Nodes : BothLive(n) /\ ~(Len(node[n].hist) <= Len(node'[n].hist) /\ SubSeq(node'[n].hist, 1, Len(node[n].hist)) = node[n].hist)}
 
@@ -425,6 +440,7 @@ StepViolations ==
      (IF VoteSurvives THEN {} ELSE {"C07.VoteSurvives"}) \cup
      (IF VoteDurableAtDeath THEN {} ELSE {"C07.VoteDurableAtDeath"}) \cup
      (IF MonotoneIndices THEN {} ELSE IF \A n \in MonoBad : InstallOlderSig(n) THEN {"C04.MonotoneIndices#KF7"} ELSE {"C04.MonotoneIndices"})
+\cup (IF EntriesKeptUnlessConflict THEN {} ELSE IF \A n \in DropBad : InstallBehindSig(n) THEN {"C04.EntriesKeptUnlessConflict#KF7"} ELSE {"C04.EntriesKeptUnlessConflict"})
 \cup (IF HistAppendOnly THEN {} ELSE IF \A n \in HistBad : InstallOlderSig(n) THEN {"C01.HistAppendOnly#KF7"} ELSE {"C01.HistAppendOnly"})
 \cup (IF CommitIsQuorumBacked THEN {} ELSE {"C04.CommitIsQuorumBacked"})
 \cup (IF LeaderCompleteness THEN {} ELSE {"C03.LeaderCompleteness"})
